@@ -84,17 +84,21 @@ Fixpoint paren_scan (s : list Z) (depth : Z) : option Z :=
   end.
 Definition strip_outer (s : list Z) : option (list Z) :=
   match s with
-  | 40 :: rest =>
-      match rev rest with
-      | 41 :: inner_rev =>
-          let inner := rev inner_rev in
-          match paren_scan inner 0 with
-          | Some 0 => Some inner
-          | _ => None
-          end
-      | _ => None
-      end
-  | _ => None
+  | c :: rest =>
+      if c =? 40 then
+        match rev rest with
+        | d :: inner_rev =>
+            if d =? 41 then
+              let inner := rev inner_rev in
+              match paren_scan inner 0 with
+              | Some depth => if depth =? 0 then Some inner else None
+              | None => None
+              end
+            else None
+        | [] => None
+        end
+      else None
+  | [] => None
   end.
 
 (* contains_ignore_ascii_case *)
@@ -109,14 +113,13 @@ Fixpoint contains_ic (hay needle : list Z) : bool :=
 
 (* find_comparison_operator: (operator, rest of the text after it) *)
 Inductive cop := OGe | OLe | OGt | OLt.
+Definition eq_next (s : list Z) : bool := match s with c :: _ => c =? 61 | [] => false end.
 Fixpoint find_op (s : list Z) : option (cop * list Z) :=
   match s with
   | [] => None
   | c :: s' =>
-      if c =? 62 then
-        match s' with 61 :: s'' => Some (OGe, s'') | _ => Some (OGt, s') end
-      else if c =? 60 then
-        match s' with 61 :: s'' => Some (OLe, s'') | _ => Some (OLt, s') end
+      if c =? 62 then (if eq_next s' then Some (OGe, tl s') else Some (OGt, s'))
+      else if c =? 60 then (if eq_next s' then Some (OLe, tl s') else Some (OLt, s'))
       else find_op s'
   end.
 
@@ -131,15 +134,14 @@ Definition numeric_operand (s : list Z) : num :=
   match trim_start s with
   | [] => NumNone
   | c :: rest =>
-      let '(neg, body) := if c =? 45 then (true, rest) else if c =? 43 then (false, rest) else (false, c :: rest) in
+      let neg := c =? 45 in
+      let body := if (c =? 45) || (c =? 43) then rest else c :: rest in
       let '(n, seen, after) := take_digits body 0 false in
-      match after with
-      | 46 :: after' =>
-          (* a '.' continues the numeral; digits may follow *)
-          let '(_, seen2, _) := take_digits after' 0 false in
-          if seen || seen2 then NumDot else NumNone
-      | _ => if seen then NumInt (if neg then - n else n) else NumNone
-      end
+      if (match after with d :: _ => d =? 46 | [] => false end) then
+        (* a '.' continues the numeral; digits may follow *)
+        let '(_, seen2, _) := take_digits (tl after) 0 false in
+        if seen || seen2 then NumDot else NumNone
+      else if seen then NumInt (if neg then - n else n) else NumNone
   end.
 
 (* the double nearest to an integer (ties to even), as an integer *)
